@@ -50,13 +50,14 @@ type Ctx struct {
 	npkgs  int
 	nfuncs int
 
-	modFuncs []*ssa.Function // all functions of module packages (incl. anonymous), sorted by position
-	goarch   string
-	eff      *effAnalysis
-	reg      *registry
-	tmpl     *fontTmpl
-	roles    map[string]string
-	ren      *renameMap
+	modFuncs  []*ssa.Function // all functions of module packages (incl. anonymous), sorted by position
+	goarch    string
+	eff       *effAnalysis
+	reg       *registry
+	tmpl      *fontTmpl
+	roles     map[string]string
+	ren       *renameMap
+	roleOwner map[string]*types.TypeName
 }
 
 func (c *Ctx) load() {
